@@ -23,13 +23,15 @@ pub trait IterConfig: Clone + Send + 'static {
     fn id(&self) -> &Self::Id;
 
     /// Try to get offsets from live indexes
-    /// Returns: (file_offsets, offsets_index)
+    /// Returns: (segment_id, file_offsets, offsets_index), the id of the live segment is read
+    /// while the indexes are locked so that it belongs to the returned offsets
     fn try_get_from_live_indexes(
         &self,
+        live_segment_id: &AtomicU32,
         live_indexes: &LiveIndexes,
         from_position: u64,
         dir: IterDirection,
-    ) -> impl Future<Output = Option<(Vec<u64>, usize)>>;
+    ) -> impl Future<Output = Option<(SegmentId, Vec<u64>, usize)>>;
 
     /// Try to get offsets from a reader set
     /// Returns: (file_offsets, offsets_index)
@@ -71,11 +73,12 @@ impl IterConfig for PartitionIterConfig {
 
     async fn try_get_from_live_indexes(
         &self,
+        live_segment_id: &AtomicU32,
         live_indexes: &LiveIndexes,
         from_position: u64,
         dir: IterDirection,
-    ) -> Option<(Vec<u64>, usize)> {
-        let (sequence_min, offsets) = {
+    ) -> Option<(SegmentId, Vec<u64>, usize)> {
+        let (segment_id, sequence_min, offsets) = {
             let live_indexes_guard = live_indexes.read().await;
             let partition_index = live_indexes_guard.partition_index.get(self.partition_id)?;
 
@@ -84,6 +87,7 @@ impl IterConfig for PartitionIterConfig {
             }
 
             (
+                live_segment_id.load(Ordering::Acquire),
                 partition_index.sequence_min,
                 partition_index.offsets.clone(),
             )
@@ -97,7 +101,7 @@ impl IterConfig for PartitionIterConfig {
 
         let file_offsets = offsets.into_iter().map(|o| o.offset).collect();
 
-        Some((file_offsets, offsets_index))
+        Some((segment_id, file_offsets, offsets_index))
     }
 
     fn try_get_from_reader_set(
@@ -168,11 +172,12 @@ impl IterConfig for StreamIterConfig {
 
     async fn try_get_from_live_indexes(
         &self,
+        live_segment_id: &AtomicU32,
         live_indexes: &LiveIndexes,
         from_position: u64,
         dir: IterDirection,
-    ) -> Option<(Vec<u64>, usize)> {
-        let (version_min, offsets) = {
+    ) -> Option<(SegmentId, Vec<u64>, usize)> {
+        let (segment_id, version_min, offsets) = {
             let live_indexes_guard = live_indexes.read().await;
             let stream_index = live_indexes_guard.stream_index.get(&self.stream_id)?;
 
@@ -180,7 +185,11 @@ impl IterConfig for StreamIterConfig {
                 return None;
             }
 
-            (stream_index.version_min, stream_index.offsets.clone())
+            (
+                live_segment_id.load(Ordering::Acquire),
+                stream_index.version_min,
+                stream_index.offsets.clone(),
+            )
         };
 
         let offsets_index = if matches!(dir, IterDirection::Reverse) && from_position == u64::MAX {
@@ -189,7 +198,7 @@ impl IterConfig for StreamIterConfig {
             (from_position.saturating_sub(version_min) as usize).min(offsets.len())
         };
 
-        Some((offsets, offsets_index))
+        Some((segment_id, offsets, offsets_index))
     }
 
     fn try_get_from_reader_set(
@@ -313,19 +322,16 @@ impl<C: IterConfig> BucketIter<C> {
         check_closed_segments: bool,
     ) -> Result<Self, C::Error> {
         // Check live indexes first
-        if let Some((segment_id, index)) = live_indexes.get(&bucket_id) {
-            let segment_id = segment_id.load(Ordering::Acquire);
+        if let Some((live_segment_id, index)) = live_indexes.get(&bucket_id) {
             #[cfg(feature = "verif-hooks")]
             crate::verif::pause("iter:after-segment-id-load");
-            let matches = match dir {
-                IterDirection::Forward => segment_id >= next_segment_id,
-                IterDirection::Reverse => segment_id <= next_segment_id,
-            };
-
-            if matches
-                && let Some((file_offsets, offsets_index)) = config
-                    .try_get_from_live_indexes(index, from_position, dir)
-                    .await
+            if let Some((segment_id, file_offsets, offsets_index)) = config
+                .try_get_from_live_indexes(live_segment_id, index, from_position, dir)
+                .await
+                && match dir {
+                    IterDirection::Forward => segment_id >= next_segment_id,
+                    IterDirection::Reverse => segment_id <= next_segment_id,
+                }
             {
                 let segment_iter = SegmentIter::new(
                     reader_pool,
@@ -462,10 +468,9 @@ impl<C: IterConfig> BucketIter<C> {
                 })
             }
             None => {
-                if let Some((segment_id, index)) = live_indexes.get(&bucket_id) {
-                    let segment_id = segment_id.load(Ordering::Acquire);
-                    if let Some((file_offsets, offsets_index)) = config
-                        .try_get_from_live_indexes(index, from_position, dir)
+                if let Some((live_segment_id, index)) = live_indexes.get(&bucket_id) {
+                    if let Some((segment_id, file_offsets, offsets_index)) = config
+                        .try_get_from_live_indexes(live_segment_id, index, from_position, dir)
                         .await
                     {
                         let segment_iter = SegmentIter::new(
